@@ -201,6 +201,8 @@ def derive_cases(tier):
         yield {'f': f, 'kn': 'text', 'subj': 'ec256_1', 'iss': 'ed', 'now': '2024-02-29T12:00:00+00:00', 'it': 0, 'text': True}
     for iss in ('ed', 'ecdsa', 'rsa'):
         yield {'f': 'derive', 'kn': 'ident1-id0', 'iid': 'str', 'subj': 'ec256_1', 'iss': iss, 'start': STARTS[3], 'dur': 3600, 'it': 0, 'typedtext': True}
+    for iss in ('ed', 'ecdsa', 'rsa', 'hmac'):
+        yield {'f': 'derive', 'kn': 'ident1-id0', 'iid': 'str', 'subj': 'ec256_1', 'iss': iss, 'start': STARTS[3], 'dur': 3600, 'it': 0, 'locgen': True}
     # W: public keys whose DER encoding begins / ends with an octet that is white space in ASCII (the last octet of an EC point is any
     #    value); instants with a sub-second part and durations that are not whole seconds
     for ws in (b'\x0a', b'\x20', b'\x09', b'\x0d'):
@@ -330,6 +332,14 @@ def run_case_inner(case):
                 except Exception as e:  # noqa
                     return [(f'C16|derive|raises:{type(e).__name__}@{tb_where(e)}', f'{e!r}; first certificate of case {case}')], None
                 signer.key_locator_name = loc
+            if case.get('locgen'):
+                # the signer was configured with its key locator as a one-shot iterator of components (a documented form of a name)
+                # and has issued one certificate already: the next one names the same locator
+                signer.key_locator_name = (c for c in list(enc.Name.normalize(loc)))
+                try:
+                    sv2.derive_cert(list(names['ident1-id0']), 'first', pub, signer, dt.datetime(2020, 1, 1), 60)
+                except Exception as e:  # noqa
+                    return [(f'C16|derive|raises:{type(e).__name__}@{tb_where(e)}', f'{e!r}; first certificate of case {case}')], None
             if case.get('form') == 'uri':
                 # the same key name text has been used for another certificate before (a renewal, or a request after a self-signed one)
                 try:
